@@ -7,6 +7,7 @@ import (
 	"os"
 
 	_ "verif/sim/engines/c02"
+	_ "verif/sim/engines/c07"
 	_ "verif/sim/engines/c10"
 	_ "verif/sim/engines/c17"
 	_ "verif/sim/engines/c20"
